@@ -592,8 +592,7 @@ Proof.
   apply bind_ok in H. destruct H as (s6 & H6 & H).
   assert (I6 : Inv s6).
   { destruct (vm_cell m).
-    - destruct (vm_body m) as [|b0 bs]; [discriminate|].
-      eapply (fold_items_inv (fun c => cell_item c) cur (b0 :: bs)); [|exact H6|exact I5|lia].
+    - eapply (fold_items_inv (fun c => cell_item c) cur (vm_body m)); [|exact H6|exact I5|lia].
       intros it a b Hx Ia _. eapply cell_item_inv; eassumption.
     - eapply (fold_items_inv (fun c => body_item c) cur); [|exact H6|exact I5|lia].
       intros it a b. apply body_item_inv. }
